@@ -1215,7 +1215,10 @@ private theorem views_of_strip (e : Edge) :
     `edge.parents[i]` *is* an edge object of the previous tree; after `from_dict` every parent is
     a fresh copy (`Edge.from_dict(parent)`): its identity differs from that of every edge object
     of every tree of the rebuilt vine, so an in-place change of a tree-`k` edge is no longer
-    visible through the parents of tree `k+1`. -/
+    visible through the parents of tree `k+1`.
+    Full-strength statements: `CopVerif.Props.C14b.vine_relink` (everything observable, the dict
+    returned again, re-linking of parents BY VALUE) and
+    `C14b.vine_relink_identity_counterexample` (re-linking by object identity is false). -/
 theorem vine_relink_partial (fams : List Family) (s : Vine) (h : VineWF fams s) (hf : s.fitted = true) :
     ∃ d s', s.toDict = some d ∧ vineFromDict fams d = some s' ∧ s'.obs = s.obs ∧
       s'.trees.map Tree.strip = s.trees.map Tree.strip ∧ TreesWF 0 s'.trees ∧
